@@ -184,17 +184,22 @@ CLAIMS["C15"] = dict(
 
 CLAIMS["C20"] = dict(
     category="other",
-    text=("Decides: (D1) no method reachable from VTKWriter.write() stores into or mutates the writer's accumulated state "
-          "(attributes set by __init__/add_*), directly or through an alias -- the structural condition for 'writing twice "
-          "gives identical files'; (D2) by abstract interpretation of array record counts as exact polynomials in symbolic sizes "
-          "(written points, mesh nodes, elements, spheres, contact edges, nodes per element): each of POINTS/CELLS/CELL_TYPES "
-          "declares exactly the records written before the next header, the CELLS size equals the integers written, "
-          "POINT_DATA == POINTS and CELL_DATA == CELL_TYPES == CELLS, every admitted nodal/cell field carries the declared "
-          "record count after padding, and the add_* guards admit exactly those counts. The numeric round trip of values and "
-          "whether connectivity ids refer to written points for subset output nodes are NOT decided. The padding records produced by default_values have 1 / 3 / 3x3 components for SCALARS / VECTORS / TENSORS in every data-type branch."
-          ""),
-    design_ref="DESIGN.md section 4, C20",
-    technique="static analysis: effect (who-writes-self.*) analysis with alias tracking over the write() call cone; abstract interpretation of array lengths with symbolic sizes")
+    text=("Decided by abstractly interpreting VTKWriter through its public API (rules/C20_interp.py, C20_eval.py, C20_ops.py, C20_np.py, "
+          "C20_text.py: integers are exact polynomials over size symbols with sign reasoning, arrays are symbolic shapes with NumPy shape "
+          "semantics, text is an abstract token sequence, lists / dicts / instances are heap objects with identity and a mutation log; counted "
+          "loops with symbolic trip count are summarised by peeling two rounds and inductively verifying a linear extrapolation; a field dictionary "
+          "holds entry classes): in 50 situations -- VTKWriter(mesh) for the element orders, add_sphere*, add_contact_edges*, add_*_field for each "
+          "input shape and VTK data type, then write() twice -- the written file is read back with an abstract legacy-VTK grammar reader: (D2/T9) "
+          "header lines, section order, no duplicate section, declared counts equal the lines and numbers written (POINTS, CELLS incl. its size "
+          "entry, CELL_TYPES, POINT_DATA, CELL_DATA), sibling headers agree, every admitted field is written once with the right keyword, data "
+          "type word and LOOKUP_TABLE and n x (1 / 3 / 9) numbers, the admission guards demand the section's count; (D2/T6) one padding record of "
+          "the right width per extra point / cell for every field kind x data type, and default_values judged against the stored column "
+          "layout; (D1) the second write() gives an identical abstract file and nothing reachable from the writer before write() is mutated. "
+          "Numeric values, number formatting and whether connectivity ids refer to written points are NOT decided. REFUTED only for a derived "
+          "contradiction (differing polynomials of independent sizes, a token where the grammar needs another, a NumPy call that would raise, a "
+          "mutation that changes the second file); everything unmodelled is UNDECIDED."),
+    design_ref="DESIGN.md section 4, C20 and section 11.8",
+    technique="static analysis: abstract interpretation of the writer over symbolic sizes, symbolic array shapes and abstract text with a heap mutation log; inductively verified loop summaries; grammar-directed reading of the abstract output")
 
 CLAIMS["C13"] = dict(
     category="other",
